@@ -7,7 +7,7 @@ Merged into the runner's table by adding to registry.py:
 """
 
 ASSUME_T = [
-    "torch (2.x CPU kernels, dispatcher, type promotion) behaves as documented and is the trusted base, with two measured exceptions that the engine intercepts at the torch attribute quanto looks up and reports instead of executing: torch._weight_int8pack_mm is memory-unsafe unless K % 16 == 0, torch._int_mm is for a (1, c>1) operand with strides (1, 1) or an expanded operand (DESIGN 3.6 seam; engine_t.kernel_guard)",
+    "torch (2.x CPU kernels, dispatcher, type promotion) behaves as documented and is the trusted base, with two measured exceptions that the engine intercepts at the torch attribute quanto looks up and reports instead of executing: torch._weight_int8pack_mm is memory-unsafe unless K % 16 == 0, torch._int_mm is, with oneDNN enabled, when both operands have a unit stride and one has a leading dimension smaller than its extent (in_features == 1, expanded or re-viewed transposed payloads; core.pin_torch() runs every simulation with oneDNN off, where the kernel is sound) (DESIGN 3.6 seam; engine_t.kernel_guard)",
     "single caller thread; no CUDA/MPS device in the sandbox (device moves are cpu->cpu; AWQ tensors and the CUDA/MPS kernel routes never run)",
     "programs run under torch.no_grad() with library.disable_extensions() held (pure-python unpack kernel; the C++ kernel is C04's)",
     "per-step reading of C05: each result is compared with the same call on the operands dequantized immediately before the step; effects of an in-place op on aliases of its destination are not judged; an in-place op whose destination overlaps itself or partially aliases its source is not a valid float program either and is skipped",
@@ -38,7 +38,7 @@ PROPS_T = {
                 {"name": "faults", "runs": 20000, "cfg": {"faults": True}, "faults": True, "chunk": 100},
             ],
             "thorough": [
-                {"name": "nofault", "runs": 1200000, "cfg": {"faults": False}, "faults": False, "chunk": 500},
+                {"name": "nofault", "runs": 1400000, "cfg": {"faults": False}, "faults": False, "chunk": 500},
                 {"name": "faults", "runs": 300000, "cfg": {"faults": True}, "faults": True, "chunk": 500},
             ],
         },
@@ -60,8 +60,8 @@ PROPS_T = {
                 {"name": "faults", "runs": 40000, "cfg": {"faults": True}, "faults": True, "chunk": 100},
             ],
             "thorough": [
-                {"name": "nofault", "runs": 650000, "cfg": {"faults": False}, "faults": False, "chunk": 500},
-                {"name": "faults", "runs": 550000, "cfg": {"faults": True}, "faults": True, "chunk": 500},
+                {"name": "nofault", "runs": 850000, "cfg": {"faults": False}, "faults": False, "chunk": 500},
+                {"name": "faults", "runs": 750000, "cfg": {"faults": True}, "faults": True, "chunk": 500},
             ],
         },
     },
